@@ -13,11 +13,11 @@ import (
 
 type modelFn func(fr *Frame, args []Val, st *State, pos token.Pos) (Val, *State)
 
-var models map[string]modelFn
-var locModels map[string]modelFn
+var models = map[string]modelFn{}
+var locModels = map[string]modelFn{}
 
 func init() {
-	models = map[string]modelFn{
+	for k, v := range map[string]modelFn{
 		"strings.HasPrefix": func(fr *Frame, a []Val, st *State, pos token.Pos) (Val, *State) {
 			fr.vc.assumptions["A-BYTE"] = true
 			return TV(App(SBool, "str.prefixof", a[1].T, a[0].T)), st
@@ -102,6 +102,8 @@ func init() {
 			fr.vc.Oblige("exit", "os.Exit", pos, st, False, "os.Exit must be unreachable")
 			return Val{}, nil
 		},
+	} {
+		models[k] = v
 	}
 	for _, n := range []string{"Printf", "Print", "Println"} {
 		models[pkgPath+"/log."+n] = func(fr *Frame, a []Val, st *State, pos token.Pos) (Val, *State) {
@@ -110,7 +112,7 @@ func init() {
 		}
 		models["log."+n] = models[pkgPath+"/log."+n]
 	}
-	locModels = map[string]modelFn{
+	for k, v := range map[string]modelFn{
 		"(*bytes.Buffer).WriteString": func(fr *Frame, a []Val, st *State, pos token.Pos) (Val, *State) {
 			vc := fr.vc
 			vc.assumptions["model:bytes.Buffer (content as string)"] = true
@@ -133,6 +135,8 @@ func init() {
 			st.Assume(Eq(App(SString, "bytes.str", id), s))
 			return TV(MkSlice(id, IntLit(0), n, n)), st
 		},
+	} {
+		locModels[k] = v
 	}
 }
 
